@@ -492,12 +492,19 @@ def offset_rule(f, fpw):
         good = [e for e in look if e.get('k') == 'Binary' and e['op'] == 'Sub' and hir.local(e['r']) and hir.local(e['r'])[1] == nl and hir.local(e['l'])]
         res.append(('pw/lookup-col-minus-offset', bool(look) and len(good) == len(look), 'pw() must translate a firing column with index_map[col - n_outs]; found %s' % ([hir.pp(e)[:30] for e in look] or 'no lookup')))
         # col ranges over the columns of the firing vector and only set bits are used
-        ok = False
+        ok = None
         for n in hir.nodes(fpw['hir']):
             if n.get('k') == 'For' and good and hir.bindings(n['pat']) and hir.bindings(n['pat'])[0][1] == hir.local(good[0]['l'])[1]:
-                rb = hir.range_bounds(n['iter'])
+                it_ = hir.strip(n['iter'])
+                while it_.get('k') == 'MethodCall' and it_['name'] in ('filter', 'into_iter', 'iter', 'copied'):
+                    it_ = hir.strip(it_['recv'])      # `(0..cols).filter(set bits)` visits the same columns and uses the set ones
+                rb = hir.range_bounds(it_)
                 if rb and hir.lit_int(hir.strip(rb[0])) == 0 and rb[1] is not None and hir.strip(rb[1]).get('k') == 'MethodCall' and hir.strip(rb[1])['name'] == 'cols' and not rb[2]:
                     ok = True
+                elif rb and rb[0] is not None and rb[1] is not None:
+                    ok = False            # a range with other bounds: columns are skipped
+                elif ok is not True:
+                    ok = None
         if good:
             res.append(('pw/all-columns', ok, 'pw() must visit every column `0..v.cols()` of the firing vector'))
     return res
